@@ -13,7 +13,7 @@ var triviaChoices = []string{"", "", " ", " ", "  ", "\t", "\n", "\r\n", " ;c\n"
 	";\n", " ; \t\n", ";\r\n", ";\n;\n\n", "\n;\n", ";;\n",
 	";was:\tD_7[2]\n", " ;\x01\x7f ctl E[1]\n", "; nb\u00a0sp F[1]{a=b}\n", ";cr\rC[9]\n", ";\u2028ls G[1]\n", ";\x00nul A[1]\n"}
 
-var metaLexemes = []string{";-)", ";k", "７", "k", "key", "Am", "txt", "a b", "x;y", "120", "v w  x", "5/4", "ff", "日本語", "tail ", "semi;colon", "new\nline", "[1]", "C_7/E", "-", "é😀", "#", "b"}
+var metaLexemes = []string{";-)", ";k", "７", "k", "key", "Am", "txt", "a b", "x;y", "120", "v w  x", "5/4", "ff", "日本語", "tail", "semi;colon", "new\nline", "[1]", "C_7/E", "-", "é😀", "#", "b"}
 
 var freeSymbols = []string{"７", "m٣", "m", "dim", "maj7", "aug", "sus4", "M7", "m7b5", "add9", "mM7", "m7", "o", "ø7", "(b9)", "+", "-5", "maj7#11", "mb5", "sus", "Δ", "x]y", "{q", "a,b", "}"}
 
@@ -177,19 +177,15 @@ func joinChord(toks []grammar.Token, r *rand.Rand, trivia bool) string {
 	inMeta := false
 	for i, t := range toks {
 		if i > 0 {
-			prev := toks[i-1]
 			sep := ""
 			if trivia && r != nil {
 				sep = triviaChoices[r.Intn(len(triviaChoices))]
 			}
 			// inside {}: blanks only before a METADATA (they are skipped), never after one; comments are data there
 			if inMeta {
-				if prev.Kind == "METADATA" || strings.Contains(sep, ";") {
+				if strings.Contains(sep, ";") {
 					sep = ""
 				}
-			}
-			if prev.Kind == "UNDERSCORE" && strings.Contains(sep, ";") {
-				sep = " "
 			}
 			cand := b.String() + sep + t.Val
 			if !prefixTokens(cand, toks[:i+1]) {
